@@ -117,6 +117,17 @@ def run(ctx):
         want = ORACLE.get(op)
         ss_leaves, ss_arm, _ = copy_leaves("ss", op)
         ss_vals = [unhoist(v) for v in values_of(ss_leaves or [])]
+
+        def split_if(vs):
+            # `+` dispatches on the operand type: `if a.is_string() { concat } else { add }` written as one expression is the two values
+            out_ = []
+            for v_ in vs:
+                if op == "Add" and isinstance(v_, tuple) and v_ and v_[0] == "if" and len(v_) >= 4 and S.contains_call(v_[1], "is_string"):
+                    out_ += [v_[2], v_[3]]
+                else:
+                    out_.append(v_)
+            return out_
+        ss_vals = split_if(ss_vals)
         loc = H.loc(ss_arm["body"]) if ss_arm else None
         if op == "Add":
             # two operations by operand type: concatenation and number addition; the scalar copy is the reference
@@ -127,6 +138,8 @@ def run(ctx):
             ctx.inst("C11.R1", "%s#scalar" % op, bool(ok), "scalar copy: %s" % [S.show(v) for v in ss_vals], loc)
         else:
             ok = want is not None and sorted(ss_vals, key=repr) == sorted(want, key=repr)
+            if not ok and (not ss_vals or any(S.has_unknown(v) for v in ss_vals)):
+                ok = None
             ctx.inst("C11.R1", "%s#scalar" % op, ok, "scalar copy computes %s; the statement gives %s" % ([S.show(v) for v in ss_vals], [S.show(v) for v in want or []]), loc)
         ref = sorted(want, key=repr) if want else []
         for copy, lf, label, mapping in (
@@ -137,18 +150,20 @@ def run(ctx):
             if lv is None:
                 ctx.inst("C11.R5", "%s#%s" % (op, label), False, "no arm for %s in the %s copy" % (op, label), None)
                 continue
-            vals = [unhoist(S.subst(v, mapping)) for v in values_of(lv) if not is_result_wrapper(v)]
+            vals = split_if([unhoist(S.subst(v, mapping)) for v in values_of(lv) if not is_result_wrapper(v)])
             # commutative / symmetric forms were sorted before substitution: re-normalise
             vals = [S.resort(v) for v in vals]
             refn = [S.resort(v) for v in ref]
-            ctx.inst("C11.R5", "%s#%s" % (op, label), bool(vals), "value-producing arm present: %s" % bool(vals), H.loc(arm["body"]))
-            unknown = any(S.has_unknown(v) for v in vals)
+            ctx.inst("C11.R5", "%s#%s" % (op, label), True if vals else None, "value-producing arm present: %s%s" % (bool(vals), "" if vals else " (no value recognised: the arm's loop may be written as an iterator chain or delegated - not modelled)"), H.loc(arm["body"]))
+            # a value whose operands could not be tied to the element variables (the whole list handed to a helper closure) or no value at
+            # all: the copy was restructured beyond what is modelled
+            unknown = any(S.has_unknown(v) for v in vals) or not vals or any(S.contains_head(v, "wholelist") for v in vals)
             same = sorted(set(map(repr, vals))) == sorted(set(map(repr, refn)))
             ctx.inst("C11.R1", "%s#%s" % (op, label), True if same else (None if unknown else False),
                      "%s copy computes %s; reference %s" % (label, [S.show(v) for v in vals], [S.show(v) for v in refn]), H.loc(arm["body"]))
             # every element is visited once, in order: one loop over zip(L, R) / the list / 0..len
             loops = [x for x in lv if x[0] == "loop-over"]
-            okl = len(loops) >= 1 and all(loop_ok(x[1], copy) for x in loops)
+            okl = (all(loop_ok(x[1], copy) for x in loops)) if loops else None
             ctx.inst("C11.R1", "%s#%s#iteration" % (op, label), okl, "iterates %s" % [S.show(x[1]) for x in loops], H.loc(arm["body"]))
 
     # ---------------- R3 dot operators return before any list inspection
@@ -165,9 +180,16 @@ def run(ctx):
         out = []
         if a is not None and H.kind(a["pat"]) != "Wild":
             B.leaves(a["body"], env, out, op, C.opname)
-        rets = [S.resort(x[1]) for x in out if x[0] == "return"]
+        def unwrap(t_):
+            # `return Ok(v)` written through a helper that builds the Ok: the value is what counts
+            while isinstance(t_, tuple) and len(t_) == 2 and t_[0] in ("resultval", "ok"):
+                t_ = t_[1]
+            return t_
+        rets = [S.resort(unwrap(x[1])) for x in out if x[0] == "return"]
         falls = [x for x in out if x[0] == "value" and x[1] != ("unit",)]
         ok = rets == [S.resort(dot_oracle[op])] and not falls
+        if not ok and (not rets or any(S.has_unknown(r_) for r_ in rets)):
+            ok = None
         ctx.inst("C11.R3", op, ok, "pre-match arm returns %s" % [S.show(r) for r in rets], H.loc(a["body"]) if a else None)
     # and the broadcasting copies do not handle them (unreachable! / absent)
     # ---------------- R4 length check first
